@@ -22,9 +22,6 @@ ParamsFull == {PAbsent, PNull, PScalar} \cup {PPos(s) : s \in PosFull}
 
 NonObjs == {NonObj("scalar"), NonObj("null"), NonObj("arr")}
 
-(* every combination of the member alphabets: 5 * 9 * 212 * 8 + 3 = 76 323 entries *)
-EntriesFull == {Obj(v, m, p, i) : v \in VersFull, m \in MethsFull, p \in ParamsFull, i \in IdsFull} \cup NonObjs
-
 (* representatives of every class for the batch interleavings *)
 EntriesSmall == NonObjs \cup {
   Obj("v2", "m2",  PPos(<<"p", "p">>), "int"),                 \* ok, result
